@@ -64,3 +64,43 @@ Print Assumptions C03_result_justified.
 Print Assumptions C03_result_exact.
 Print Assumptions C03_no_literal_path_no_report.
 Print Assumptions C03_conditions_exact.
+
+(* ------------------------------------------------------------------------------------------------------------
+   Extension (third round): the && / || / ! combination (`_get_asserted`, `compute_equations`, `_flatten_ast`) is
+   REGENERATED from the Python source (tools/translate_asserted.py -> Gen/AssertedGen.v) and proved equal to the model's
+   `asserted` on every operand tree the emulation builds, for every domain (Lemmas/AssertedGenLemmas.v). *)
+From Coq Require Import List String NArith ZArith Bool Arith.
+From Tealer Require Import Tables Syntax Parse Cfg StackAst Keys KeysGen AssertedGen Analysis AssertedLemmas KeysGenLemmas AssertedGenLemmas.
+
+Theorem C03_combination_regenerated :
+  forall (T : Type) (univ null : T) (union inter : T -> T -> T) (single : instr -> nat -> list sval -> T * T) (p : prog) 
+         (poss : list nat) (ast : list (nat * instr * list sval)),
+       emulate p poss nil = Some ast ->
+       forall (k : nat) (op : instr) (args : list sval) (a : sval) (fuel : nat),
+       In (k, op, args) ast ->
+       In a args ->
+       a <> SUnknown ->
+       cdepth (cond_of a) < fuel ->
+       get_asserted_gen T univ null union inter single fuel a = Some (asserted T univ null union inter single (cond_of a)).
+Proof. exact @emulate_get_asserted_gen_eq. Qed.
+
+(* soundness of the regenerated combination, any nesting *)
+Theorem C03_combination_regenerated_sound :
+  forall (T : Type) (univ null : T) (union inter : T -> T -> T) (single : instr -> nat -> list sval -> T * T) (V : Type)
+         (gamma : T -> V -> Prop),
+       (forall x : V, gamma univ x) ->
+       (forall (a b : T) (x : V), gamma a x -> gamma (union a b) x) ->
+       (forall (a b : T) (x : V), gamma b x -> gamma (union a b) x) ->
+       (forall (a b : T) (x : V), gamma a x -> gamma b x -> gamma (inter a b) x) ->
+       forall (rho : instr -> nat -> list sval -> bool) (x : V),
+       leaf_sound T single V gamma rho x ->
+       forall (fuel : nat) (v : sval) (b : bool),
+       aon_ok v ->
+       v <> SUnknown ->
+       cdepth (cond_of v) < fuel ->
+       ceval rho (cond_of v) b ->
+       exists r : T * T, get_asserted_gen T univ null union inter single fuel v = Some r /\ (if b then gamma (fst r) x else gamma (snd r) x).
+Proof. exact @get_asserted_gen_sound. Qed.
+
+Print Assumptions C03_combination_regenerated.
+Print Assumptions C03_combination_regenerated_sound.
